@@ -41,6 +41,18 @@ def job(j):
             src = p + '.src'
             with open(src, 'wb') as f: f.write(bytes(((i * 11 + nblk) & 0xff) for i in range(64)) * (nblk * bs // 64))
             open(sp, 'w').write('write %s /Tfile\n' % src)
+        elif prep[0] == 'pattern':
+            pat, bs = prep[1], prep[2]
+            src = p + '.src'; gar = p + '.gar'
+            with open(gar, 'wb') as f: f.write(b'\xa5' * (150 * bs))
+            with open(src, 'wb') as f:
+                for i in range(len(pat) + 1):
+                    f.write(bytes(((k * 13 + i) & 0xff) | 1 for k in range(bs)))
+            # a dense file is written first (physically contiguous), then single blocks are punched out (hole) or punched and preallocated again
+            # (unwritten extent; the allocator hands the just-freed block back, so unwritten and written extents end up logically AND physically adjacent
+            # and the unwritten block still holds the old bytes: an e2fsck that merges them changes what the file reads)
+            open(sp, 'w').write('write %s /G\nrm /G\nwrite %s /Tpat\n' % (gar, src) +
+                                ''.join('punch /Tpat %d %d\n' % (i, i) + ('fallocate /Tpat %d %d\n' % (i, i) if ch == 'U' else '') for i, ch in enumerate(pat) if ch != 'W'))
         rc, out = run([DEBUGFS, '-w', '-f', sp, p], timeout=60)
         with open(p, 'rb') as f: data = f.read()
         rc0, out0 = run([E2FSCK, '-fn', p], timeout=30)
@@ -117,7 +129,7 @@ def main(tier, only=None):
     ck = Check('C05', tier, 'model_checking')
     E2FSCK = tool('e2fsck'); DEBUGFS = tool('debugfs'); fsweep.init_scratch()
     quick = tier == 'quick'
-    parts = only or ['a', 'b', 'c', 'd']
+    parts = only or ['a', 'b', 'c', 'd', 'e']
     jobs = []
     if 'a' in parts:
         for b in fsweep.SWEEP_BASES + ['needsrec']:
@@ -133,6 +145,12 @@ def main(tier, only=None):
         for base, bs in (('ext2', 1024), ('ext3', 1024)) if not quick else (('ext2', 1024),):
             for nblk in (range(0, 301) if not quick else list(range(0, 30)) + list(range(30, 301, 6)) + [267, 268, 269, 270]):
                 jobs.append(('c', 'c/%s/blocks%d' % (base, nblk), base, ('file', nblk, bs), [('-fy', '-E', 'bmap2extent'), ('-fyD',)]))
+    if 'e' in parts:
+        import itertools
+        for base, bs_, n in ((('ext4csum', 1024, 4),) if quick else (('ext4csum', 1024, 6), ('ext4', 1024, 6), ('bigalloc', 1024, 6), ('bs4k', 4096, 5))):
+            for pat in itertools.product('HWU', repeat=n):
+                pat = ''.join(pat)
+                jobs.append(('e', 'e/%s/%s' % (base, pat), base, ('pattern', pat, bs_), MODES))
     res = pmap(job, jobs, chunksize=2)
     runs = 0; skipped = 0
     for (cid, st, bad, n), j in zip(res, jobs):
@@ -158,7 +176,7 @@ def main(tier, only=None):
         ck.part('d_summary_only_damage', mutants=ndj)
     ck.add(evaluations=runs, distinct_nontrivial=len(jobs) + ndj, states=len(jobs) + ndj, transitions=runs, traces_validated_against_impl=runs,
            rule='(a) every corpus image x 5 repair modes; (b) test directory holding the first n of a fixed name sequence (hard links), every n in 0..400, 2-3 sequences (short, 252-byte, mixed lengths), '
-                'on linear/indexed/csum/inline/bigalloc bases x modes; (c) a file of every block count 0..300 x {bmap2extent, -D}; (d) every single-field mutant of bitmap bits, counts, flags and checksum fields '
+                'on linear/indexed/csum/inline/bigalloc bases x modes; (c) a file of every block count 0..300 x {bmap2extent, -D}; (e) a file whose first n blocks are every pattern over {hole, written, unwritten(preallocated)} (quick n=4, thorough n=6; free space pre-filled with stale bytes) x modes; (d) every single-field mutant of bitmap bits, counts, flags and checksum fields '
                 'x e2fsck -fy.  Oracle: exit in {0,1} and xck.tree (path,type,bytes,size,mode,owner,nlink,target,xattrs) identical before/after; (d) also second run clean',
            samples=[j[1] for j in jobs[:2]] + [j[1] for j in jobs[-2:]])
     ck.assumptions += ['xck.tree is the observer of "files" (independent reader); casefold/encrypted directories not in scope']
